@@ -9,7 +9,7 @@ META = {
     "level": "proof",
     "technique": "Coq vm_compute over an exact model (formal square roots, Q(i)[sqrt2,sqrt3,sqrt5,sqrt7]) of binary/unary/Christiansen mappings for truncations 2..8 + correspondence of the real mappings with the model and with an independent numpy ladder-product oracle",
     "design_ref": "DESIGN.md §3 C54",
-    "text": "Props/C54.v (12 kernel-checked theorems): for the transcribed binary and unary mappings, every truncation 2..8 and every one-mode word of length <=3 (two modes: truncations 2..4, length <=2; Christiansen: two modes, length <=3) the matrix element of the image between the documented encodings of Fock states equals the matrix element of the product of truncated ladder matrices in word order, exactly (coefficients kept in Q(i)[sqrt2,sqrt3,sqrt5,sqrt7] with formal square roots whose squares are checked); encoded states have no amplitude outside the code space; image(adjoint word) = adjoint(image); the ket-propagation reference equals the honest product of truncated matrices; sums are preserved for ALL sentences (image of a concatenation = concatenation of images, every term a scalar multiple of a word-image term). Tie: random bosonic words/sentences on 1-3 modes, truncations 2-8 go through the real qp.binary_mapping / unary_mapping / christiansen_mapping (ps=True); every Pauli coefficient is compared inside Coq with the exact model coefficient (rational enclosures of the square roots, 1e-9; exact equality where the coefficients are rational), and an independent numpy oracle checks that the image restricted to the encoded subspace equals the ladder product, that the code space is invariant, and that sums and Hermitian conjugates are preserved.",
+    "text": "Props/C54.v (11 kernel-checked theorems): for the transcribed binary and unary mappings, every truncation 2..8 and every one-mode word of length <=3 (two modes: truncations 2..4, length <=2; Christiansen: two modes, length <=3) the matrix element of the image between the documented encodings of Fock states equals the matrix element of the product of truncated ladder matrices in word order, exactly (coefficients kept in Q(i)[sqrt2,sqrt3,sqrt5,sqrt7] with formal square roots whose squares are checked); encoded states have no amplitude outside the code space (one mode, length <=2); image(adjoint word) = adjoint(image); the ket-propagation reference equals the honest product of truncated matrices; sums are preserved for ALL sentences (image of a concatenation = concatenation of images, every term a scalar multiple of a word-image term). Tie: random bosonic words/sentences on 1-3 modes, truncations 2-8 go through the real qp.binary_mapping / unary_mapping / christiansen_mapping (ps=True); every Pauli coefficient is compared inside Coq with the exact model coefficient (rational enclosures of the square roots, 1e-9; exact equality where the coefficients are rational), and an independent numpy oracle checks that the image restricted to the encoded subspace equals the ladder product, that the code space is invariant, and that sums and Hermitian conjugates are preserved.",
     "note": "Bounded proof: the image/closure/adjoint theorems are finite computations (bounds in the statements); multi-mode and longer words are covered only by the correspondence run. The arithmetic of the formal-square-root field (kadd/kmul, ~15 lines) is part of the trusted model (sanity theorem: sqrt symbols square correctly; tie compares against floats on every run). Sentence sums are modelled as concatenation of term lists (dict merging of the implementation is compared as a map word->coefficient). wire_map / ps=False (operator output) / tol arguments are not modelled. Truncations above 8 are outside the model.",
     "assumptions": ["truncation 2 <= n_states <= 8 (property quantifier)", "ps=True, wire_map=None, tol=None"],
     "trusted": ["hand-written model coq/Disc/BoseModel.v tied to /repo by correspondence only",
@@ -257,7 +257,7 @@ def run(ctx):
     ctx.coq_props()
     rng = ctx.rng
     quick = ctx.tier == "quick"
-    n = 110 if quick else 900
+    n = 90 if quick else 500
     cases = [dict(c) for c in CORPUS]
     while len(cases) < n:
         big = rng.random() < (0.06 if quick else 0.12)
@@ -266,7 +266,7 @@ def run(ctx):
     header = ("From Coq Require Import QArith.\nFrom PLV Require Import Disc.PauliAlgModel Disc.BoseModel.\n"
               "Open Scope Z_scope.")
     terms = [g_case(c, o) for c, o in zip(cases, obs)]
-    bad = ctx.coq_eval_cases("cases", header, terms, "check_case", chunk=(14 if quick else 40), par=12)
+    bad = ctx.coq_eval_cases("cases", header, terms, "check_case", chunk=(12 if quick else 40), par=12)
     # exact comparison where the coefficients are certainly rational (two levels: sqrt(1) only)
     ex_idx = []
     for i, (c, o) in enumerate(zip(cases, obs)):
